@@ -423,6 +423,13 @@ pub fn check_all(doc: &str, rules: &str, evals: &mut u64) -> Result<Option<(Obs,
 
 pub fn replay(case: &J) -> CaseResult {
     let mut ev = 0;
+    if case["kind"] == "multi" {
+        let files: Vec<String> = case["rules_files"].as_array().map(|a| a.iter().map(|x| x.as_str().unwrap_or("").to_string()).collect()).unwrap_or_default();
+        return match check_multi(case["doc"].as_str().unwrap_or(""), &files, &mut ev) {
+            Ok(_) => CaseResult::Pass(Info::default()),
+            Err((msg, sig)) => CaseResult::Fail(Failure { msg, sig, case: case.clone() }),
+        };
+    }
     match check_all(case["doc"].as_str().unwrap_or(""), case["rules"].as_str().unwrap_or(""), &mut ev) {
         Ok(_) => CaseResult::Pass(Info::default()),
         Err((msg, sig)) => CaseResult::Fail(Failure { msg, sig, case: case.clone() }),
@@ -460,6 +467,133 @@ fn random_case(u: &mut Choices, sz: Size) -> CaseResult {
     finish(doc_text, text, r, evals, vec![])
 }
 
+/// several rules files against one data file: the union of the PASS / FAIL / SKIP sets must be the
+/// same in every rendering (the structured reporter merges the per-file reports, the plain ones
+/// print one report per pair)
+pub fn check_multi(doc: &str, files: &[String], evals: &mut u64) -> Result<Option<Obs>, (String, String)> {
+    let e = |m: String, s: &str| (m, s.to_string());
+    let mut reference = Obs { pass: Some(BTreeSet::new()), fail: Some(BTreeSet::new()), skip: Some(BTreeSet::new()), file: None };
+    let mut file_sts = vec![];
+    for f in files {
+        *evals += 1;
+        match verdict(doc, f).0 {
+            Verdict::Ok { rules, file } => {
+                file_sts.push(file);
+                for (n, s) in rules {
+                    match s {
+                        St::Pass => reference.pass.as_mut().unwrap().insert(last_seg(&n)),
+                        St::Fail => reference.fail.as_mut().unwrap().insert(last_seg(&n)),
+                        St::Skip => reference.skip.as_mut().unwrap().insert(last_seg(&n)),
+                    };
+                }
+            }
+            Verdict::EvalErr(_) => return Ok(None),
+            Verdict::ParseErr(x) => return Err(e(format!("generator-invalid: {}", x), "c07:generator-invalid")),
+            Verdict::Panic(p) => return Err(e(format!("panic {}", p), &format!("panic:{}", p.split(' ').next().unwrap_or("")))),
+        }
+    }
+    let want_code = if file_sts.iter().any(|s| *s == St::Fail) { 19 } else { 0 };
+    let dir = fresh_dir("c07m");
+    let mut rps = vec![];
+    for (i, f) in files.iter().enumerate() {
+        let p = dir.join(format!("r{}.guard", i));
+        write_file(&p, f);
+        rps.push(p.to_string_lossy().to_string());
+    }
+    let dp = dir.join("d.json");
+    write_file(&dp, doc);
+    let dps = vec![dp.to_string_lossy().to_string()];
+    let union = |obs: Vec<Obs>| -> Obs {
+        let mut o = Obs { pass: Some(BTreeSet::new()), fail: Some(BTreeSet::new()), skip: Some(BTreeSet::new()), file: None };
+        for x in obs {
+            o.pass.as_mut().unwrap().extend(x.pass.unwrap_or_default());
+            o.fail.as_mut().unwrap().extend(x.fail.unwrap_or_default());
+            o.skip.as_mut().unwrap().extend(x.skip.unwrap_or_default());
+        }
+        o
+    };
+    let m = |x: Result<(), String>, sig: &str| x.map_err(|m| (m, sig.to_string()));
+    // console: one table per pair; the union of all tables
+    *evals += 1;
+    let r = validate_files(&rps, &dps, &[], &VOpts::plain(Fmt::Single, vec![Show::All]), "");
+    if r.code != Ok(want_code) {
+        return Err(e(format!("multi-file console: exit {:?}, expected {}", r.code, want_code), "c07:multi:exit-code"));
+    }
+    let mut tables = vec![];
+    let txt = strip_ansi(&r.out);
+    let mut cur = String::new();
+    for line in txt.lines() {
+        if line.contains(" Status = ") && !cur.is_empty() {
+            tables.push(std::mem::take(&mut cur));
+        }
+        cur.push_str(line);
+        cur.push('\n');
+    }
+    tables.push(cur);
+    let obs: Result<Vec<Obs>, String> = tables.iter().map(|t| parse_table(t, &[Show::All])).collect();
+    m(agree(&reference, &union(obs.map_err(|x| (x, "c07:multi:table".to_string()))?), "multi-file console -S all"), "c07:multi:table")?;
+    // plain -o json: one document per pair
+    *evals += 1;
+    let r = validate_files(&rps, &dps, &[], &VOpts::plain(Fmt::Json, vec![Show::None]), "");
+    let docs = json_docs(&r.out).map_err(|x| (format!("multi-file plain -o json: {}", x), "c07:multi:json".to_string()))?;
+    if docs.len() != files.iter().filter(|f| !f.trim().is_empty()).count() {
+        return Err(e(format!("multi-file plain -o json printed {} documents for {} rules files", docs.len(), files.len()), "c07:multi:json"));
+    }
+    let obs: Result<Vec<Obs>, String> = docs.iter().map(obs_from_report).collect();
+    m(agree(&reference, &union(obs.map_err(|x| (x, "c07:multi:json".to_string()))?), "multi-file plain -o json"), "c07:multi:json")?;
+    // structured json / yaml: one merged report
+    for fmt in [Fmt::Json, Fmt::Yaml] {
+        *evals += 1;
+        let r = validate_files(&rps, &dps, &[], &VOpts::structured(fmt), "");
+        if r.code != Ok(want_code) {
+            return Err(e(format!("multi-file --structured -o {}: exit {:?}, expected {}", fmt.flag(), r.code, want_code), "c07:multi:exit-code"));
+        }
+        let j: J = if fmt == Fmt::Json { serde_json::from_str(&r.out).map_err(|x| (format!("not JSON: {}", x), "c07:multi:json".to_string()))? } else { serde_yaml::from_str(&r.out).map_err(|x| (format!("not YAML: {}", x), "c07:multi:yaml".to_string()))? };
+        let o = obs_from_report(&j[0]).map_err(|x| (x, "c07:multi:structured".to_string()))?;
+        m(agree(&reference, &Obs { file: None, ..o }, &format!("multi-file --structured -o {}", fmt.flag())), "c07:multi:structured")?;
+    }
+    // junit: one testcase per rules file, marked by that file's status
+    *evals += 1;
+    let r = validate_files(&rps, &dps, &[], &VOpts::structured(Fmt::Junit), "");
+    let ju = parse_junit(&r.out).map_err(|x| (format!("multi-file junit: {}", x), "c07:multi:junit".to_string()))?;
+    let want_marks: Vec<&str> = file_sts.iter().map(|s| match s { St::Fail => "fail", St::Skip => "skip", St::Pass => "pass" }).collect();
+    let got_marks: Vec<&str> = ju.cases.iter().map(|c| c.1).collect();
+    if got_marks != want_marks {
+        return Err(e(format!("multi-file junit: testcase marks {:?}, the per-file statuses give {:?}", got_marks, want_marks), "c07:multi:junit"));
+    }
+    Ok(Some(reference))
+}
+
+fn multi_case(u: &mut Choices, sz: Size) -> CaseResult {
+    let doc = gen_cfn_doc(u, &sz);
+    let doc_text = doc.to_json();
+    let k = u.range(2, 3);
+    let mut files = vec![];
+    for i in 0..k {
+        let mut f = gen_wide_file(u, &doc, sz, false);
+        prefix_names(&mut f, &format!("f{}", i));
+        // some files in which every rule is skipped
+        if u.chance(1, 3) {
+            for r in f.rules.iter_mut() {
+                r.when = Some(vec![vec![Item::Clause(cl_un(q_key(&["nosuchkey"]), UnOp::Exists, false))]]);
+            }
+        }
+        files.push(print_file(&f));
+    }
+    let mut evals = 0;
+    match check_multi(&doc_text, &files, &mut evals) {
+        Ok(None) => CaseResult::Discard("evaluation-error"),
+        Ok(Some(o)) => CaseResult::Pass(Info {
+            nontrivial: !o.fail.as_ref().unwrap().is_empty() && !o.skip.as_ref().unwrap().is_empty(),
+            key: hash_case(&[&doc_text, &files.join("\u{1}")]),
+            classes: vec![format!("multi-file:{}", k)],
+            evals,
+            sample: Some(json!({"doc": doc_text, "rules_files": files})),
+        }),
+        Err((msg, sig)) => CaseResult::Fail(Failure { msg, sig, case: json!({"kind": "multi", "doc": doc_text, "rules_files": files}) }),
+    }
+}
+
 /// reports that exceed 8 KiB / 64 KiB (buffer boundaries)
 fn big_case(i: usize) -> CaseResult {
     let sizes = [3usize, 10, 12, 40, 100, 300, 700];
@@ -477,12 +611,13 @@ fn big_case(i: usize) -> CaseResult {
 
 pub fn run(tier: Tier, seed: u64) -> i32 {
     let spec = EvidenceSpec {
-        rule: "Random wide programs x CloudFormation-shaped JSON documents, one (rules file, data file) pair per case, rendered in ~27 configurations: console summary table with -S all|pass|fail|skip|pass,fail|none and -v; plain -o json and -o yaml; -p record; --structured -o json|yaml through -r/-d files, data on stdin and --payload (plus the console table through stdin and payload); --structured -o junit and -o sarif; run_checks(verbose=false). From each output the PASS/FAIL/SKIP sets, the file status and the exit code are extracted and must equal those of the library's verbose record; YAML must denote the same data as the JSON of the same run; JUnit must be well-formed with consistent counters and marks; SARIF must have one result per failing leaf check of the JSON report. Stage 'big' uses reports of 3..700 failing elements (beyond 8 KiB and 64 KiB). Non-trivial: at least one FAIL rule and one rule of another status; distinct by hash of the texts.".into(),
+        rule: "Random wide programs x CloudFormation-shaped JSON documents, one (rules file, data file) pair per case, rendered in ~27 configurations: console summary table with -S all|pass|fail|skip|pass,fail|none and -v; plain -o json and -o yaml; -p record; --structured -o json|yaml through -r/-d files, data on stdin and --payload (plus the console table through stdin and payload); --structured -o junit and -o sarif; run_checks(verbose=false). From each output the PASS/FAIL/SKIP sets, the file status and the exit code are extracted and must equal those of the library's verbose record; YAML must denote the same data as the JSON of the same run; JUnit must be well-formed with consistent counters and marks; SARIF must have one result per failing leaf check of the JSON report. Stage 'multi-file': 2-3 rules files (a third of them with every rule skipped) against one data file: the union of the PASS/FAIL/SKIP sets and the exit code must be the same in the console tables, plain -o json, --structured json/yaml, and JUnit marks per rules file. Stage 'big' uses reports of 3..700 failing elements (beyond 8 KiB and 64 KiB). Non-trivial: at least one FAIL rule and one rule of another status; distinct by hash of the texts.".into(),
         assumptions: vec!["only syntactically valid rules files and evaluations without error are compared (a verdict is defined only for those; error exits are judged by C06)".into()],
     };
     execute("C07", tier, seed, spec, &replay, &|run: &Session| {
         run.run_enum("big", 7, big_case);
         let sz = tier.pick(Size::quick(), Size::thorough());
+        run.run_random("multi-file", tier.pick(6_000, 150_000), tier.pick(2500, 4000), |u| multi_case(u, sz));
         run.run_random("formats", tier.pick(8_000, 200_000), tier.pick(1200, 2400), |u| random_case(u, sz));
     })
 }
